@@ -154,6 +154,10 @@ INPUTS = {
 BOUNDARY_WORDS = ("tensor_cdefs", "global_weakkeydict", "memory_holder", "tensor_lib")
 
 
+# the number type of the values (Python float) and the three operations used on it: 0.0, +, ==
+VPARAMS = "(V : Type) (Vzero : V) (Vadd : V -> V -> V) (Veqb : V -> V -> bool)"
+
+
 class Fn:
     """A translated function: signature and effect shape."""
 
@@ -209,6 +213,9 @@ class Env:
 def wrap(binds, inner: str) -> str:
     for p, text, kind in reversed(binds):
         if kind == "bind":
+            if inner == "Val " + p.lstrip("'") and p != "_":
+                inner = text  # monad law: rbind e Val = e
+                continue
             inner = f"rbind {text} (fun {p} =>\n  {inner})"
         else:
             inner = f"let {p} := {text} in\n  {inner}"
@@ -253,6 +260,10 @@ class TB:
 
     def join(self, a, b, node):
         if a == b:
+            return a
+        if a is None:
+            return b
+        if b is None:
             return a
         for x, y in ((a, b), (b, a)):
             if x == ELIST and isinstance(y, tuple) and y[0] == "list":
@@ -432,6 +443,9 @@ class TB:
                 et = ty[1]
             else:
                 t, et = self.expr(x, env)
+                if isinstance(want, tuple) and want[0] == "list" and want[1] is not None and et != want[1] \
+                        and not (isinstance(et, tuple) and None in et):
+                    t, et = self.coerce(t, et, want[1], env, e), want[1]
                 segs.append(f"[{t}]")
             if et is not None or ety is None:
                 ety = et if ety is None else self.join(ety, et, e)
@@ -545,6 +559,9 @@ class TB:
         f = e.func
         if isinstance(f, ast.Name) and f.id not in env.types:
             n, a = f.id, e.args
+            if n == "range":
+                t, ety = self.iter_source(e, env)
+                return t, L(ety)
             if n == "len" and len(a) == 1 and not e.keywords:
                 t, ty = self.expr(a[0], env)
                 if ty in (TREE,):
@@ -631,6 +648,8 @@ class TB:
             if kw.arg not in names or kw.arg in args:
                 raise Unsupported(e, "keyword argument")
             args[kw.arg] = kw.value
+        for n, d in getattr(fn, "defaults", {}).items():
+            args.setdefault(n, d)
         if set(args) != set(names):
             raise Unsupported(e, f"arguments {sorted(set(names) - set(args))} not given (defaults are not translated)")
         texts = []
@@ -643,7 +662,7 @@ class TB:
                 raise Unsupported(e, f"captured variable {n} has type {env.types.get(n)} at the call, {ty} expected")
             cap.append(sv(n))
         fuel = ["fuel"] if fn.fuel else []
-        text = "(" + " ".join([fn.coq] + fuel + cap + texts) + ")"
+        text = "(" + " ".join([fn.coq, "V Vzero Vadd Veqb"] + fuel + cap + texts) + ")"
         rts = fn.result_types()
         if not stmt:
             if fn.mut or fn.mut_params:
@@ -1052,7 +1071,7 @@ class TB:
         for n in names:
             env.types[n] = out_types.get(n, env.types.get(n))
         body = shape(*texts)
-        return wrap(pre, f"rbind {body} (fun {pat(sv(n) for n in names)} =>\n  {self.block(rest, env, k)})")
+        return wrap(pre + [(pat(sv(n) for n in names), body, "bind")], self.block(rest, env, k))
 
     def for_stmt(self, s: ast.For, env: Env, cont) -> str:
         if s.orelse:
@@ -1091,7 +1110,7 @@ class TB:
         st = tup(sv(n) for n in state)
         fun = f"(fun {pat(sv(n) for n in state)} {p} =>\n  {body})"
         loop = f"(rfold_zip_strict {fun} {zipped[0]} {zipped[1]} {st})" if zipped else f"(rfold {fun} {src} {st})"
-        return wrap(pre, f"rbind {loop} (fun {pat(sv(n) for n in state)} =>\n  {cont(env)})")
+        return wrap(pre + [(pat(sv(n) for n in state), loop, "bind")], cont(env))
 
     def target_names(self, t):
         if isinstance(t, ast.Name):
@@ -1121,7 +1140,8 @@ class TB:
             if isinstance(n, ast.FunctionDef) and self.calls_self(n):
                 return True
             if isinstance(n, ast.Call):
-                nm = n.func.id if isinstance(n.func, ast.Name) else (n.func.attr if isinstance(n.func, ast.Attribute) else None)
+                nm = n.func.id if isinstance(n.func, ast.Name) else (
+                    n.func.attr if isinstance(n.func, ast.Attribute) and ast.unparse(n.func.value) == "Tensor" else None)
                 if nm in self.fns and self.fns[nm].fuel:
                     return True
         return False
@@ -1144,7 +1164,7 @@ class TB:
         ps = ([("fuel", "nat")] if fn.fuel else []) + [(sv(n), coq_ty(t)) for n, t in fn.ro + fn.mut + fn.params]
         rts = fn.result_types()
         ret = "unit" if not rts else " * ".join(coq_ty(t) for t in rts)
-        sig = " ".join(f"({n} : {t})" for n, t in ps)
+        sig = VPARAMS + " " + " ".join(f"({n} : {t})" for n, t in ps)
         if fn.recursive:
             self.out.append(f"Fixpoint {fn.coq} {sig} {{struct fuel}} : R ({ret}) :=\n  match fuel with O => NoFuel | S fuel =>\n  {body}\n  end.\n")
         else:
@@ -1229,7 +1249,7 @@ class TB:
             rest = []
             for s in body:
                 src = ast.unparse(s)
-                if src in INPUTS and not rest:
+                if src in INPUTS and all(isinstance(r, ast.ImportFrom) for r in rest):
                     ro.append(INPUTS[src])
                 else:
                     rest.append(s)
@@ -1252,6 +1272,11 @@ class TB:
         fn.ro = ro
         fn.fuel = self.needs_fuel(node)
         self.fns[name] = fn
+        a = node.args
+        fn.defaults = {}
+        for arg, d in list(zip(a.args[len(a.args) - len(a.defaults):], a.defaults)) + list(zip(a.kwonlyargs, a.kw_defaults)):
+            if isinstance(d, ast.Constant) and isinstance(d.value, bool):
+                fn.defaults[arg.arg] = d
         env = Env(self, fn)
         for n, t in ro + params:
             env.types[n] = t
@@ -1346,12 +1371,7 @@ def gen_tensorbuild(src: Path) -> str:
             f"\n  | Mode_{m} => ({v})%Z" for m, v in vals) + "\n  end.",
         "Record Format : Type := mkFormat { Format_modes : list Mode; Format_ordering : list Z }.",
         "",
-        "Section Gen.",
-        "(* the number type of the values: Python float; 0.0, + and == are the only operations used *)",
-        "Variable V : Type.",
-        "Variable Vzero : V.",
-        "Variable Vadd : V -> V -> V.",
-        "Variable Veqb : V -> V -> bool.",
+        "(* every function takes the number type of the values (Python float) and 0.0, +, == on it *)",
         "",
     ]
     tb.toplevel(find_fn(Cm, "weakly_increasing"))
@@ -1367,7 +1387,7 @@ def gen_tensorbuild(src: Path) -> str:
     tb.toplevel(find_fn(T, "from_lol", "Tensor"), static_false=spec, ret=STORED)
     tb.toplevel(find_fn(T, "items", "Tensor"), method=True, inputs=True, gen=ITEM)
     tb.toplevel(find_fn(T, "to_dok", "Tensor"), method=True, items_input=L(ITEM))
-    return "\n".join(head) + "\n" + "\n".join(tb.out) + "\nEnd Gen.\n"
+    return "\n".join(head) + "\n" + "\n".join(tb.out)
 
 
 def targets(src: Path) -> dict:
